@@ -165,6 +165,27 @@ func parseVia(name, text, entry string, plan *ReaderPlan, uniq string) *parseRes
 			}
 			res.m, res.err = asm.ParseFile(p)
 			os.Remove(p)
+		case "samefile":
+			// The file-system seam: the path was parsed a moment ago, and its content
+			// has been replaced since by a text of exactly the same size with exactly
+			// the same modification time (what cp -p, tar, a build sandbox with fixed
+			// timestamps or a coarse clock produce). Nothing that a stat call reports
+			// has changed; the bytes have.
+			p := filepath.Join(tmpDir, "same-"+uniq+".ll")
+			size := (len(text)/8192 + 2) * 8192
+			stamp := time.Unix(1577836800, 0)
+			decoy := padText("@decoy = global i32 1\ndefine i32 @decoy.f() {\n  ret i32 7\n}\n", size)
+			if err := os.WriteFile(p, []byte(decoy), 0o644); err != nil {
+				panic("harness: cannot write temp file: " + err.Error())
+			}
+			os.Chtimes(p, stamp, stamp)
+			asm.ParseFile(p)
+			if err := os.WriteFile(p, []byte(padText(text, size)), 0o644); err != nil {
+				panic("harness: cannot write temp file: " + err.Error())
+			}
+			os.Chtimes(p, stamp, stamp)
+			res.m, res.err = asm.ParseFile(p)
+			os.Remove(p)
 		case "procfd":
 			// ParseFile on something that is not a regular file: the read end of a
 			// pipe reached through /proc/self/fd (os.Stat reports size 0). The text
@@ -454,7 +475,7 @@ func c12Run(sc *C12Scenario) *c12Outcome {
 		runtime.GC()
 	}
 	for _, t := range sc.Tasks {
-		if t.Entry == "file" && tmpDir == "" {
+		if (t.Entry == "file" || t.Entry == "samefile") && tmpDir == "" {
 			d, err := os.MkdirTemp("", "c12-")
 			if err != nil {
 				out.class, out.sig, out.detail = "harness-error", "tempdir", err.Error()
@@ -594,7 +615,20 @@ func c12Run(sc *C12Scenario) *c12Outcome {
 	return out
 }
 
-var entries = []string{"string", "bytes", "reader", "file", "procfd"}
+var entries = []string{"string", "bytes", "reader", "file", "procfd", "samefile"}
+
+// padText appends a comment so that the text is exactly size bytes long (the
+// padding changes nothing the parser sees).
+func padText(text string, size int) string {
+	if !strings.HasSuffix(text, "\n") {
+		text += "\n"
+	}
+	n := size - len(text)
+	if n < 2 {
+		return text
+	}
+	return text + ";" + strings.Repeat(" ", n-2) + "\n"
+}
 var priorKinds = []string{"parse", "parse-print", "same-mutate", "same-print-twice"}
 
 func genReader(r *rng, textLen int, allowFail bool) *ReaderPlan {
